@@ -528,21 +528,44 @@ func c03ConcSub() *engine.Sub {
 				args map[string]any
 				iss  int
 			}
-			root := mustDlg(0, 1, 0, "/a", polX)
-			leaf := mustDlg(1, 2, 0, "/a/b", polY)
+			polL := policy.MustConstruct(policy.Any(".l[-2:]", policy.GreaterThan(".", literal.Int(1))))
+			polYonly := policy.MustConstruct(policy.Like(".y", "a*"))
+			_ = polY
+			rootX, rootOpen := mustDlg(0, 1, 0, "/a", polX), mustDlg(0, 1, 0, "/a", nil)
+			leafY, leafL, leafOpen := mustDlg(1, 2, 0, "/a/b", polYonly), mustDlg(1, 2, 0, "/a/b", polL), mustDlg(1, 2, 0, "/a/b", nil)
 			leafWide := mustDlg(1, 2, 0, "/", nil)
 			foreign := mustDlg(2, 1, 2, "/a", nil)
-			okArgs := map[string]any{"x": 1, "y": "ab", "l": []int{1, 2, 3}}
-			chains := []chain{
-				{"allowed-2-links", []*delegation.Token{leaf, root}, "/a/b", okArgs, 2},
-				{"allowed-1-link", []*delegation.Token{root}, "/a", okArgs, 1},
-				{"denied-policy-root", []*delegation.Token{leaf, root}, "/a/b", map[string]any{"x": 2, "y": "ab", "l": []int{1, 2, 3}}, 2},
-				{"denied-policy-leaf", []*delegation.Token{leaf, root}, "/a/b", map[string]any{"x": 1, "y": "zz", "l": []int{5, 5, 5, 5, 0, 0}}, 2},
-				{"denied-command", []*delegation.Token{leaf, root}, "/a/c", okArgs, 2},
-				{"denied-widening", []*delegation.Token{leafWide, root}, "/a", okArgs, 2},
-				{"denied-principal", []*delegation.Token{foreign, root}, "/a", okArgs, 1},
-				{"denied-no-proof", nil, "/a", okArgs, 1},
+			argSets := []struct {
+				name string
+				a    map[string]any
+			}{
+				{"ok", map[string]any{"x": 1, "y": "ab", "l": []int{1, 2, 3}}},
+				{"x-violated", map[string]any{"x": 2, "y": "ab", "l": []int{1, 2, 3}}},
+				{"y-violated", map[string]any{"x": 1, "y": "zz", "l": []int{1, 2, 3}}},
+				{"l-violated", map[string]any{"x": 1, "y": "ab", "l": []int{5, 5, 5, 5, 0, 0}}},
 			}
+			okArgs := argSets[0].a
+			var chains []chain
+			for _, cc := range []struct {
+				name string
+				dl   []*delegation.Token
+				cmd  string
+				iss  int
+			}{
+				{"[leafY,rootX]", []*delegation.Token{leafY, rootX}, "/a/b", 2}, {"[leafL,rootX]", []*delegation.Token{leafL, rootX}, "/a/b", 2},
+				{"[leafOpen,rootOpen]", []*delegation.Token{leafOpen, rootOpen}, "/a/b", 2}, {"[leafY,rootOpen]", []*delegation.Token{leafY, rootOpen}, "/a/b", 2},
+				{"[rootX]", []*delegation.Token{rootX}, "/a", 1}, {"[rootOpen]", []*delegation.Token{rootOpen}, "/a", 1},
+			} {
+				for _, as := range argSets {
+					chains = append(chains, chain{cc.name + "/" + as.name, cc.dl, cc.cmd, as.a, cc.iss})
+				}
+			}
+			chains = append(chains,
+				chain{"denied-command", []*delegation.Token{leafY, rootX}, "/a/c", okArgs, 2},
+				chain{"denied-widening", []*delegation.Token{leafWide, rootX}, "/a", okArgs, 2},
+				chain{"denied-principal", []*delegation.Token{foreign, rootX}, "/a", okArgs, 1},
+				chain{"denied-no-proof", nil, "/a", okArgs, 1},
+			)
 			var cs []engine.Call
 			for _, ch := range chains {
 				ch := ch
@@ -562,6 +585,9 @@ func c03ConcSub() *engine.Sub {
 					panic(err)
 				}
 				cs = append(cs, engine.Call{Name: ch.name, Run: func() string { return errLabel(inv.ExecutionAllowed(ld)) }})
+				if !strings.HasSuffix(ch.name, "/ok") && !strings.HasSuffix(ch.name, "/y-violated") {
+					continue
+				}
 				cs = append(cs, engine.Call{Name: ch.name + "/hook", Run: func() string { return errLabel(inv.ExecutionAllowedWithArgsHook(ld, identityHook)) }})
 				cs = append(cs, engine.Call{Name: ch.name + "/fresh-token", Run: func() string {
 					inv2, err := invocation.New(prin(ch.iss), prin(0), commandOf(ch.cmd), prf, opts...)
